@@ -102,7 +102,33 @@ pub fn castle_keys_by_file<N: Nd>(n: &mut N) {
     assert!(k.castle[c as usize][0][f as usize] == k.castle[c as usize][1][f as usize]);
 }
 
+/// Reference-only lemma: the hash difference of two positions is the XOR of the
+/// keys of the features they differ in (for arbitrary key values).
+pub fn delta_lemma<N: Nd>(n: &mut N) {
+    let mut k = crate::refm::Keys { piece: [[[0; 64]; 6]; 2], castle: [[[0; 8]; 2]; 2], ep: [0; 8], side: n.u64() };
+    for c in 0..2 {
+        for p in 0..6 {
+            for s in 0..64 {
+                k.piece[c][p][s] = n.u64();
+            }
+        }
+        for w in 0..2 {
+            for f in 0..8 {
+                k.castle[c][w][f] = n.u64();
+            }
+        }
+    }
+    for f in 0..8 {
+        k.ep[f] = n.u64();
+    }
+    let a = sym_pos(n);
+    let b = sym_pos(n);
+    assert!(crate::refm::zobrist(&a, &k) ^ crate::refm::zobrist(&b, &k) == crate::refm::zobrist_delta(&a, &b, &k));
+}
+
 crate::proofs! {
+    #[kani::unwind(66)]
+    c10_delta_lemma => delta_lemma;
     #[kani::unwind(66)]
     c11_linearity => linearity;
     #[kani::unwind(66)]
